@@ -547,6 +547,12 @@ def check_batch(ctx, case, record=True):
     vals = [v for k, v in P if k == ok_axis]
     budget = maxlen - base
     every_single_fits = all(len(_enc(rest + [(ok_axis, v)])) <= budget for v in set(vals))
+    if len(batches) == 1 and len(axes) > 1:
+        # one batch does not reveal which axis batches() chose (it divides only the widest one): demand the budget
+        # only if a single value fits whichever axis was meant
+        for ax in axes:
+            r2 = [(k, v) for k, v in P if k != ax]
+            every_single_fits = every_single_fits and all(len(_enc(r2 + [(ax, v)])) <= budget for v in {v for k, v in P if k == ax})
     if every_single_fits:
         ctx.count("budget_checked")
         for i, B in enumerate(batches):
@@ -607,7 +613,7 @@ def plan(tier, seed):
     if tier == "quick":
         r, b, n = 1200, 200, 8
     else:
-        r, b, n = 40000, 5000, 16
+        r, b, n = 15000, 2500, 16
     tasks = []
     for _ in range(n):
         tasks.append({"task": "render", "examples": r})
